@@ -197,6 +197,62 @@ fn main() {
         };
         println!("HS|{}|{}|{}|{}|{}|{}|{}", fi, sp.name, threads * rounds, e1 - e0, st, WRONG.load(Ordering::SeqCst), cons);
     }
+    // memory-aware stores that all FIT (C09 / C03 / C05 "no needless eviction"): caches with max_memory >= 1 KB and no (or a loose)
+    // entry limit, six keys with small values; all threads call in parallel, and once every caller has returned a sequential
+    // pass over the six keys must be served from the cache — every computed (Ok) result was stored and nothing had to go.
+    // A store path that gives up under contention (try_lock, a busy shard treated as absent) loses results here.
+    {
+        let fit: Vec<_> = specs
+            .iter()
+            .filter(|s| !s.thread && s.ttl.is_none() && s.max_mem.is_some() && s.limit.map(|l| l >= 6).unwrap_or(true))
+            .filter(|s| {
+                // six values of this return type must fit together (predicates, if any, are scripted to accept / not to object)
+                rt::NEXT_TL.with(|n| n.set(Some(rt::Next { n: 1, ok: true, len: 4, ci: true, io: false })));
+                6 * (corpus::WOULD[s.idx]().1 + 8) <= s.max_mem.unwrap()
+            })
+            .cloned()
+            .collect();
+        let mut pick: Vec<_> = Vec::new();
+        for want_async in [false, true] {
+            for want_result in [false, true] {
+                let pool: Vec<_> = fit.iter().filter(|s| s.is_async == want_async && s.is_result == want_result).cloned().collect();
+                if !pool.is_empty() {
+                    pick.push(pool[seed as usize % pool.len()].clone());
+                }
+            }
+        }
+        for sp in pick {
+            let fi = sp.idx;
+            rt::NEXT_TL.with(|n| n.set(Some(rt::Next { n: 1, ok: true, len: 4, ci: true, io: false })));
+            let _ = corpus::CALLS[fi](0);
+            let reps = (rounds / 8).max(20);
+            let mut lost = 0u64;
+            for _rep in 0..reps {
+                let _ = cachelito_core::invalidate_with(&sp.name, |_k| true);
+                let barrier = Arc::new(Barrier::new(threads));
+                let mut hs = Vec::new();
+                for t in 0..threads {
+                    let barrier = barrier.clone();
+                    hs.push(std::thread::spawn(move || {
+                        barrier.wait();
+                        for i in 0..3usize {
+                            let j = (t + i * 2) % 6;
+                            rt::NEXT_TL.with(|n| n.set(Some(rt::Next { n: det_n(fi, j), ok: true, len: 4, ci: true, io: false })));
+                            let _ = corpus::CALLS[fi](j);
+                        }
+                    }));
+                }
+                join_all(&mut hs, "fitting-memory-aware-stores", fi, &sp.name);
+                let e0 = rt::EXEC.load(Ordering::SeqCst);
+                for j in 0..6usize {
+                    rt::NEXT_TL.with(|n| n.set(Some(rt::Next { n: det_n(fi, j), ok: true, len: 4, ci: true, io: false })));
+                    let _ = corpus::CALLS[fi](j);
+                }
+                lost += rt::EXEC.load(Ordering::SeqCst) - e0;
+            }
+            println!("HK|{}|{}|{}|{}|{}", fi, sp.name, reps * threads * 3, lost, sp.is_result as u8);
+        }
+    }
     // concurrent RESETS (C15): k lookups, then every thread calls `stats_registry::reset(name)` at once, then (no lookup in
     // between) the counters must read 0 / 0; then k lookups again must read exactly k.  A reset that is not one atomic
     // overwrite per counter (snapshot-and-subtract, read-modify-write) lets two overlapping resets wrap a counter.
